@@ -391,7 +391,7 @@ impl Property for C15 {
         ]
     }
     fn families(&self, tier: Tier) -> Vec<Family<Case>> {
-        vec![Family::random("programs", tier.n(8000, 200_000), fam_programs)]
+        vec![Family::random("programs", tier.n(32_000, 200_000), fam_programs)]
     }
     fn judge(&self, case: &Case, _strict: bool) -> Verdict {
         let cfg = Cfg::plain();
